@@ -573,8 +573,14 @@ pub struct Space {
 fn build_space(name: &str, prior_u: &[T], depth: usize, pair_u: &[T], with_parsed: bool, max_priors: usize) -> Space {
     let prior_entries: Vec<Entry> = prior_u.iter().map(|t| Entry { t: t.clone(), u: to_suiron(t), kind: "canon" }).collect();
     let mut entries = vec![];
+    // (the scale spaces use variables that the renaming map of `encodings` does not know: as built only)
+    let canon_only = name == "ids" || name == "deep";
     for t in pair_u {
-        entries.extend(encodings(t, with_parsed));
+        if canon_only {
+            entries.push(entry(t.clone()));
+        } else {
+            entries.extend(encodings(t, with_parsed));
+        }
     }
     let empty: Rc<SubstitutionSet<'static>> = Rc::new(SubstitutionSet::new());
     let mut priors = vec![(vec![], empty.clone())];
@@ -614,6 +620,120 @@ fn build_space(name: &str, prior_u: &[T], depth: usize, pair_u: &[T], with_parse
     Space { entries, prior_entries, priors, name: name.to_string(), cap_hit }
 }
 
+/// Sizes at which a width, a capacity or a counter typically overflows.
+fn boundary_sizes(thorough: bool) -> Vec<usize> {
+    if thorough {
+        let mut v: Vec<usize> = (4..=40).collect();
+        v.extend([63, 64, 65, 127, 128, 129, 254, 255, 256, 257, 300, 511, 512, 513]);
+        v
+    } else {
+        vec![4, 5, 8, 9, 16, 17, 32, 33, 64, 65, 128, 129, 255, 256, 257, 300]
+    }
+}
+
+fn entry(t: T) -> Entry {
+    let u = to_suiron(&t);
+    Entry { t, u, kind: "canon" }
+}
+
+/// A space whose prior states are built by fixed scripts of unifications (not by search).
+fn scripted_space(name: &str, prior_terms: Vec<T>, scripts: Vec<Vec<(usize, usize)>>, pair_terms: Vec<T>) -> Space {
+    let prior_entries: Vec<Entry> = prior_terms.into_iter().map(entry).collect();
+    let empty: Rc<SubstitutionSet<'static>> = Rc::new(SubstitutionSet::new());
+    let mut priors = vec![];
+    for sc in scripts {
+        let mut ss = empty.clone();
+        let mut ok = true;
+        for (ai, bi) in &sc {
+            match real_unify(&prior_entries[*ai].u, &prior_entries[*bi].u, &ss) {
+                Ok(Some(r)) => ss = r,
+                _ => {
+                    ok = false;
+                    break;
+                }
+            }
+        }
+        // a script that does not go through (or ends in a cycle) is judged where it is a transition, not here
+        if ok && find_cycle(&decode_ss(&ss)).is_none() {
+            priors.push((sc, ss));
+        }
+    }
+    Space { entries: pair_terms.into_iter().map(entry).collect(), prior_entries, priors, name: name.to_string(), cap_hit: false }
+}
+
+/// Scale spaces: long variable chains, large variable ids, deep terms, long lists - one size parameter at a
+/// time, at every boundary size.
+fn scale_spaces(thorough: bool) -> Vec<Space> {
+    let mut v = vec![];
+    let var_n = |i: usize| var(i, &format!("$V{}", i));
+    for &k in &boundary_sizes(thorough) {
+        // v1 .. vk chained forwards / backwards / forwards and grounded at the far end
+        let mut pt: Vec<T> = (1..=k).map(var_n).collect();
+        pt.push(atom("a"));
+        let fwd: Vec<(usize, usize)> = (0..k - 1).map(|i| (i, i + 1)).collect();
+        let bwd: Vec<(usize, usize)> = (0..k - 1).map(|i| (i + 1, i)).collect();
+        let mixed: Vec<(usize, usize)> = (0..k - 1).map(|i| if i % 2 == 0 { (i, i + 1) } else { (i + 1, i) }).collect();
+        let mut grounded = fwd.clone();
+        grounded.push((k - 1, k));
+        let (v1, vk, vm) = (var_n(1), var_n(k), var_n(k / 2 + 1));
+        let pairs = vec![
+            v1.clone(),
+            vk.clone(),
+            vm.clone(),
+            atom("a"),
+            atom("b"),
+            cplx("f", vec![v1.clone()]),
+            cplx("f", vec![vk.clone()]),
+            cplx("g", vec![v1.clone(), vk.clone()]),
+            cplx("g", vec![vk.clone(), v1.clone()]),
+            cplx("g", vec![atom("a"), vm.clone()]),
+            list_t(vec![v1.clone()], vk.clone()),
+            var_n(k + 1),
+        ];
+        v.push(scripted_space(&format!("chain-{}", k), pt, vec![fwd, bwd, mixed, grounded], pairs));
+    }
+    // large variable ids next to small ones, every state reachable in two unifications
+    let ids: Vec<usize> = if thorough { vec![1, 2, 3, 31, 32, 33, 63, 64, 65, 127, 128, 129, 255, 256, 257] } else { vec![1, 2, 63, 64, 65, 128, 129, 256, 257] };
+    let mut iu: Vec<T> = ids.iter().map(|i| var_n(*i)).collect();
+    iu.push(atom("a"));
+    let mut ipairs = iu.clone();
+    for i in [1usize, 64, 65, 129, 257] {
+        ipairs.push(cplx("f", vec![var_n(i)]));
+    }
+    ipairs.push(cplx("g", vec![var_n(65), var_n(1)]));
+    ipairs.push(list_t(vec![var_n(64)], var_n(128)));
+    v.push(build_space("ids", &iu, 2, &ipairs, false, if thorough { 20_000 } else { 1_500 }));
+    // deep terms and long lists
+    let mut deep: Vec<T> = vec![x(), z(), atom("a")];
+    for &n in &boundary_sizes(thorough) {
+        let nest = |leaf: T| (0..n).fold(leaf, |t, _| cplx("f", vec![t]));
+        deep.push(nest(x()));
+        deep.push(nest(atom("a")));
+        deep.push(nest(atom("b")));
+        let els: Vec<T> = (1..=n as i64).map(T::Int).collect();
+        deep.push(list(els.clone()));
+        deep.push(list_t(els[..n - 1].to_vec(), z()));
+        deep.push(list_t(els.clone(), z()));
+        let mut e2 = els.clone();
+        e2[n - 1] = x();
+        deep.push(list(e2));
+        let mut e3 = els.clone();
+        e3[n - 1] = T::Int(-1);
+        deep.push(list(e3));
+        let mut e4 = els.clone();
+        e4[n / 2] = T::Anon;
+        deep.push(list(e4));
+        deep.push(cplx("k", els.clone()));
+        // n distinct fresh variables (ids above everything else in these spaces) facing n constants
+        deep.push(cplx("k", (0..n).map(|i| var(600 + i, &format!("$W{}", i))).collect()));
+        let mut e5 = els.clone();
+        e5[n - 1] = x();
+        deep.push(cplx("k", e5));
+    }
+    v.push(build_space("deep", &[x(), z(), atom("a"), list(vec![T::Int(7)])], 1, &deep, false, 50));
+    v
+}
+
 pub fn spaces(tier: &str) -> Vec<Space> {
     let thorough = tier == "thorough";
     let mut v = vec![];
@@ -626,6 +746,7 @@ pub fn spaces(tier: &str) -> Vec<Space> {
     let mut pu = fs.clone();
     pu.extend(os);
     v.push(build_space("func", &func_priors(), 1, &pu, false, 100_000));
+    v.extend(scale_spaces(thorough));
     if thorough {
         v.push(build_space("small-depth2", &u_small(), 2, &u_small(), false, 200_000));
         v.push(build_space("full-depth2", &u_small(), 2, &u_full(false), false, 4_000));
